@@ -151,9 +151,18 @@ def run_unit(spec_path: str, repo: str, libdir: str, outdir: str, timeout: int =
     open(gen, "w").write(text)
     res.report = b.rep
     res.assumptions = scan_assumptions(text)
+    # registered assumptions of this unit (contracts/<unit>.assumptions, committed): anything new makes the unit undecided
+    reg = os.path.join(os.path.dirname(spec_path), u.name + ".assumptions")
+    if os.path.exists(reg):
+        known = {l.strip() for l in open(reg) if l.strip() and not l.startswith("#")}
+        extra = [a for a in res.assumptions if a not in known]
+        if extra:
+            res.undecided = "unregistered assumption(s) in the generated unit: " + ", ".join(extra)
+            return res
     for f in b.fn_ranges:
         for lab in f["labels"]:
-            res.labels[lab] = {"fn": f["qual"], "src": f"{f['src']}:{f['src_lines'][0]}-{f['src_lines'][1]}"}
+            key = lab if lab not in res.labels else f"{lab} [{f['name']}]"
+            res.labels[key] = {"fn": f["qual"], "src": f"{f['src']}:{f['src_lines'][0]}-{f['src_lines'][1]}"}
     extra = ["--rlimit", str(rlimit)] if rlimit else []
     out, diags, wall, cmd, other = _run_verus(gen, timeout, extra)
     res.cmd = cmd
